@@ -142,7 +142,7 @@ prop("C22",
 CONC_ASSUMPTIONS = [
     "the Go race detector reports only races on the paths the generated schedules executed (happens-before analysis); a report whose two access stacks contain no nutsdb frame is treated as a harness error (exit 2)",
     "invoke/return instants are taken from the process's monotonic clock",
-    "a workload that has not finished after 90 s (normal: milliseconds) with goroutines parked on the database lock is a deadlock; any other timeout is inconclusive",
+    "a workload that has not finished after 60 s (normal: milliseconds) with goroutines parked on the database lock is a deadlock; any other timeout is inconclusive",
 ]
 
 prop("C14",
@@ -169,7 +169,7 @@ prop("C18",
 
 prop("C20",
      level="exploration",
-     tests=[dict(name="TestC20", quick=2500, thorough=25000),
+     tests=[dict(name="TestC20", quick=5000, thorough=25000),
             dict(name="FuzzAPIProgram", tier="quick", quick=1),  # seeds + committed corpus, plain run
             dict(name="FuzzAPIProgram", tier="thorough", fuzz=True, thorough=300, minimize="20x")],
      rule="rapid-generated programs over EVERY exported method of DB and Tx (all 53 Tx methods incl. FindTxIDOnDisk/FindOnDisk/FindLeafOnDisk, DB.Update/View/Begin/Merge/Backup/Close): a population phase fills key/value pairs, a list, two sets and a sorted set in the empty-named bucket and in bucket b (all three index modes, segment sizes 200/512/8192 so commits rotate), then 1-10 steps: writable or read-only transactions (managed and manual, commit or rollback) of 1-5 calls whose arguments are drawn from boundary-heavy domains (nil/empty/separator/255-, 256- and 70000-byte keys and buckets, MinInt64..MaxInt64 indexes, counts, offsets and limits, NaN/+-Inf/+-MaxFloat64/-0 scores, nil and populated range options, invalid regular expressions, extreme TTLs and timestamps), 1-3 further calls on the transaction after its Commit/Rollback, Close (then every kind of step on the closed database), reopen, Merge and Backup. Oracle: no call, Begin, Commit, Rollback, Update/View, Merge, Backup, Close or Open panics (so in particular a call that succeeded never makes the later Commit panic). Non-trivial: a program with an extreme argument aimed at a populated bucket, a call on a finished transaction, or a step after Close; inner_enumerations counts the API calls made.",
